@@ -8,6 +8,9 @@
 #include <usual/shlist.h>
 #include "hcommon.h"
 #include <inttypes.h>
+#include <sys/time.h>
+#include <signal.h>
+#include <unistd.h>
 
 typedef unsigned long long ull;
 
@@ -500,10 +503,23 @@ static void sh_step(char **w, int n)
 		printf("bad-op");
 }
 
+/* a probe loop on a full table / a walk on a broken ring never ends: bound the CPU time of the
+ * whole process (a normal batch needs well under a second); dying by SIGPROF is a result */
+static void cpu_limit(void)
+{
+	struct itimerval it;
+	const char *e = getenv("C15_CPU_LIMIT");
+	memset(&it, 0, sizeof(it));
+	it.it_value.tv_sec = e ? atoi(e) : 6;
+	signal(SIGPROF, SIG_DFL);
+	setitimer(ITIMER_PROF, &it, NULL);
+}
+
 int main(void)
 {
 	char *line, *w[8];
 	int n;
+	cpu_limit();
 	ht_reset(); hp_reset(); dl_reset(); sh_reset();
 	while ((line = hc_line()) != NULL) {
 		if (!strcmp(line, "#case")) {
